@@ -543,6 +543,15 @@ def outOf : Call → Option (List Nat × List Int)
   | .output n c => some (n, c)
   | _ => none
 def outsOf (cs : List Call) : List (List Nat × List Int) := cs.filterMap outOf
+/-- what a SOURCE call asks to be shown when its condition holds: the name of an output directive; for an acyclicity edge the helper name
+    `_edge(s,t)` the converter shows it under -/
+def edgeName (a b : Int) : List Nat := Convert.s "_edge(" ++ AspifOut.printInt a ++ [44] ++ AspifOut.printInt b ++ [41]
+def srcOut : Call → Option (List Nat × List Int)
+  | .output n c => some (n, c)
+  | .acycEdge a b c => some (edgeName a b, c)
+  | _ => none
+def srcOuts (cs : List Call) : List (List Nat × List Int) := cs.filterMap srcOut
+theorem srcOuts_append (a b : List Call) : srcOuts (a ++ b) = srcOuts a ++ srcOuts b := by simp [srcOuts]
 theorem outsOf_append (a b : List Call) : outsOf (a ++ b) = outsOf a ++ outsOf b := by simp [outsOf]
 theorem rest_output {c c' : CS} (h : rest c' = rest c) : c'.output = c.output := congrArg (·.2.2.2.2.2.2.2.1) h
 
@@ -589,7 +598,15 @@ def PlainOk : Call → Prop
   | .minimize _ ls => ∀ p ∈ ls, p.1 ≠ 0 ∧ p.2 ≠ I32MINc
   | .output _ cond => ∀ l ∈ cond, l ≠ 0
   | .external _ _ => True
+  | .acycEdge _ _ cond => ∀ l ∈ cond, l ≠ 0
   | _ => False
+
+/-- `if (!ext_) out_.…(…)`: a directive smodels cannot express is handed on unchanged unless the helper predicates are used -/
+def pass (c : CS) (x : Call) : CS := if !c.ext then c.emit x else c
+
+theorem apply_edge_eq (c : CS) (hf : c.fail = false) (a b : Int) (cond : List Int) :
+    c.apply (.acycEdge a b cond) = ((pass c (.acycEdge a b cond)).makeAtom cond true).1.addOutput ((pass c (.acycEdge a b cond)).makeAtom cond true).2 (edgeName a b) false := by
+  unfold CS.apply pass edgeName; simp only [hf, Bool.false_eq_true, ↓reduceIte]
 
 theorem apply_frame_rule (c : CS) (hf : c.fail = false) (ht : Nat) (head : List Nat) (body : List Int) :
     (c.apply (.rule ht head body)).output = c.output ∧ outsOf (c.apply (.rule ht head body)).out = outsOf c.out := by
@@ -617,60 +634,81 @@ theorem apply_frame_sum (c : CS) (hf : c.fail = false) (ht : Nat) (head : List N
       rw [outsOf_append, outsOf_append, rest_out h]; simp [outsOf, outOf]
   · exact ⟨rfl, rfl⟩
 
+/-- showing the atom of a condition under a name (output directives; the helper name of an edge) -/
+theorem out_like {c : CS} {P O defs} (hj : J c P defs) (hk : K c O defs) (str : List Nat) (cond : List Int) (hx : ∀ l ∈ cond, l ≠ 0) (hash : Bool) :
+    ∃ defs', J ((c.makeAtom cond true).1.addOutput (c.makeAtom cond true).2 str hash) P defs' ∧
+      K ((c.makeAtom cond true).1.addOutput (c.makeAtom cond true).2 str hash) (O ++ [(str, cond)]) defs' := by
+  obtain ⟨defs', hJ, hsub, hrep⟩ := hj.makeAtom cond true hx
+  have hfr := makeAtom_frame c cond true
+  refine ⟨defs', hJ.of (by simp; exact .refl _) rfl rfl rfl rfl, ?_⟩
+  have hs := makeAtom_steps c cond true
+  have hk1 : K (c.makeAtom cond true).1 O defs' := hk.of hs hj.inv hfr.1 hfr.2 hsub
+  refine ⟨?_, ?_, hk1.noout⟩
+  · intro o ho
+    rcases List.mem_append.mp ho with h | h
+    · obtain ⟨n, h1, h2⟩ := hk1.fwd o h
+      exact ⟨n, by simp [CS.addOutput, h1], h2⟩
+    · simp only [List.mem_singleton] at h
+      subst h
+      exact ⟨(c.makeAtom cond true).2, by simp [CS.addOutput], hrep⟩
+  · intro p hp
+    simp only [CS.addOutput, List.mem_append, List.mem_singleton] at hp
+    rcases hp with h | h
+    · obtain ⟨cd, h1, h2⟩ := hk1.bwd p h
+      exact ⟨cd, by simp [h1], h2⟩
+    · subst h
+      exact ⟨cond, by simp, hrep⟩
+
+theorem J.through {c : CS} {P defs} (hj : J c P defs) (x : Call) (hx : inRule x = none) : J (pass c x) P defs := by
+  unfold pass; split
+  · exact hj.emit x hx
+  · exact hj
+
+theorem K.through {c : CS} {O defs} (hk : K c O defs) (hi : Inv (abs c)) (x : Call) (hx : outOf x = none) : K (pass c x) O defs := by
+  unfold pass; split
+  · exact hk.of (.refl _) hi rfl (by simp [CS.emit, outsOf_append, outsOf, hx]) (fun d hd => hd)
+  · exact hk
+
 theorem apply_plain {c : CS} {P O defs} (hj : J c P defs) (hk : K c O defs) (x : Call) (hx : PlainOk x) :
-    ∃ defs', J (c.apply x) (P ++ (rulesOf [x]).filter kept) defs' ∧ K (c.apply x) (O ++ outsOf [x]) defs' := by
+    ∃ defs', J (c.apply x) (P ++ (rulesOf [x]).filter kept) defs' ∧ K (c.apply x) (O ++ srcOuts [x]) defs' := by
   cases x with
   | rule ht head body =>
     have hf := apply_frame_rule c hj.nofail ht head body
     refine ⟨defs, apply_rule hj ht head body hx, ?_⟩
-    have : outsOf [Call.rule ht head body] = [] := rfl
+    have : srcOuts [Call.rule ht head body] = [] := rfl
     rw [this, List.append_nil]
     exact hk.of (apply_steps c _) hj.inv hf.1 hf.2 (fun d hd => hd)
   | sumRule ht head bound body =>
     have hf := apply_frame_sum c hj.nofail ht head bound body
     obtain ⟨defs', h1, h2⟩ := apply_sumRule hj ht head bound body hx
     refine ⟨defs', h1, ?_⟩
-    have : outsOf [Call.sumRule ht head bound body] = [] := rfl
+    have : srcOuts [Call.sumRule ht head bound body] = [] := rfl
     rw [this, List.append_nil]
     exact hk.of (apply_steps c _) hj.inv hf.1 hf.2 h2
   | minimize prio lits =>
     have hany : lits.any (fun p => p.2 == I32MINc) = false := by
       rw [List.any_eq_false]; intro p hp; simpa using (hx p hp).2
     have e1 : (rulesOf [Call.minimize prio lits]).filter kept = [] := rfl
-    have e2 : outsOf [Call.minimize prio lits] = [] := rfl
+    have e2 : srcOuts [Call.minimize prio lits] = [] := rfl
     rw [e1, e2, List.append_nil, List.append_nil]
     unfold CS.apply
     simp only [hj.nofail, Bool.false_eq_true, ↓reduceIte, hany]
     exact ⟨defs, hj.of (.refl _) (by simp [hj.nofail]) rfl rfl rfl, hk.of (.refl _) hj.inv rfl rfl (fun d hd => hd)⟩
   | output str cond =>
-    obtain ⟨defs', hJ, hsub, hrep⟩ := hj.makeAtom cond true hx
-    have hfr := makeAtom_frame c cond true
     have e1 : (rulesOf [Call.output str cond]).filter kept = [] := rfl
-    have e2 : outsOf [Call.output str cond] = [(str, cond)] := rfl
+    have e2 : srcOuts [Call.output str cond] = [(str, cond)] := rfl
     rw [e1, e2, List.append_nil]
     unfold CS.apply
     simp only [hj.nofail, Bool.false_eq_true, ↓reduceIte]
-    refine ⟨defs', hJ.of (by simp; exact .refl _) rfl rfl rfl rfl, ?_⟩
-    have hs := makeAtom_steps c cond true
-    have hk1 : K (c.makeAtom cond true).1 O defs' := hk.of hs hj.inv hfr.1 hfr.2 hsub
-    refine ⟨?_, ?_, hk1.noout⟩
-    · intro o ho
-      rcases List.mem_append.mp ho with h | h
-      · obtain ⟨n, h1, h2⟩ := hk1.fwd o h
-        exact ⟨n, by simp [CS.addOutput, h1], h2⟩
-      · simp only [List.mem_singleton] at h
-        subst h
-        exact ⟨(c.makeAtom cond true).2, by simp [CS.addOutput], hrep⟩
-    · intro p hp
-      simp only [CS.addOutput, List.mem_append, List.mem_singleton] at hp
-      rcases hp with h | h
-      · obtain ⟨cd, h1, h2⟩ := hk1.bwd p h
-        exact ⟨cd, by simp [h1], h2⟩
-      · subst h
-        exact ⟨cond, by simp, hrep⟩
+    exact out_like hj hk str cond hx true
+  | acycEdge a b cond =>
+    have e1 : (rulesOf [Call.acycEdge a b cond]).filter kept = [] := rfl
+    have e2 : srcOuts [Call.acycEdge a b cond] = [(edgeName a b, cond)] := rfl
+    rw [e1, e2, List.append_nil, apply_edge_eq c hj.nofail]
+    exact out_like (hj.through _ rfl) (hk.through hj.inv _ rfl) (edgeName a b) cond hx false
   | external a v =>
     have e1 : (rulesOf [Call.external a v]).filter kept = [] := rfl
-    have e2 : outsOf [Call.external a v] = [] := rfl
+    have e2 : srcOuts [Call.external a v] = [] := rfl
     rw [e1, e2, List.append_nil, List.append_nil]
     have hs := apply_steps c (.external a v)
     have hfr : (c.apply (.external a v)).fail = false ∧ (c.apply (.external a v)).heur = c.heur ∧ (c.apply (.external a v)).aux = c.aux ∧
@@ -691,9 +729,9 @@ theorem apply_plain {c : CS} {P O defs} (hj : J c P defs) (hk : K c O defs) (x :
   | _ => exact absurd hx (by simp [PlainOk])
 
 theorem run_plain {c : CS} {P O defs} (hj : J c P defs) (hk : K c O defs) (ds : List Call) (hx : ∀ d ∈ ds, PlainOk d) :
-    ∃ defs', J (ds.foldl CS.apply c) (P ++ (rulesOf ds).filter kept) defs' ∧ K (ds.foldl CS.apply c) (O ++ outsOf ds) defs' := by
+    ∃ defs', J (ds.foldl CS.apply c) (P ++ (rulesOf ds).filter kept) defs' ∧ K (ds.foldl CS.apply c) (O ++ srcOuts ds) defs' := by
   induction ds generalizing c P O defs with
-  | nil => exact ⟨defs, by simpa [rulesOf] using hj, by simpa [outsOf] using hk⟩
+  | nil => exact ⟨defs, by simpa [rulesOf] using hj, by simpa [srcOuts] using hk⟩
   | cons d r ih =>
     obtain ⟨defs1, h1, k1⟩ := apply_plain hj hk d (hx d (by simp))
     obtain ⟨defs2, h2, k2⟩ := ih h1 k1 (fun e he => hx e (by simp [he]))
@@ -701,7 +739,7 @@ theorem run_plain {c : CS} {P O defs} (hj : J c P defs) (hk : K c O defs) (ds : 
     · have : rulesOf (d :: r) = rulesOf [d] ++ rulesOf r := by rw [← rulesOf_append]; rfl
       rw [this, List.filter_append, ← List.append_assoc]
       exact h2
-    · have : outsOf (d :: r) = outsOf [d] ++ outsOf r := by rw [← outsOf_append]; rfl
+    · have : srcOuts (d :: r) = srcOuts [d] ++ srcOuts r := by rw [← srcOuts_append]; rfl
       rw [this, ← List.append_assoc]
       exact k2
 
